@@ -237,3 +237,35 @@ def materialize_int(ctx, arr):
 def cnt(ctx, arr, k, v):
     A = materialize_int(ctx, arr)
     return Sym(CNT(A, lift(k), lift(v)))
+
+
+# =============================================================================
+# more sum lemmas: shifting and reversing the summation range
+# =============================================================================
+def _mk_shift_reverse():
+    a, b = z3.Const("la", ARR), z3.Const("lb", ARR)
+    m, n, k = z3.Ints("lm ln lk")
+    L = {}
+    # sum_shift: b[i] == a[m+i] for i < n, m >= 0   =>   SUM(b, n) == SUM(a, m+n) - SUM(a, m)
+    hyp = lambda t: z3.And(m >= 0, allk(t, lambda i: b[i] == a[m + i]))
+    concl = lambda t: SUM(b, t) == SUM(a, m + t) - SUM(a, m)
+    L["sum_shift"] = (
+        lambda A, B, Mm, N: z3.Implies(z3.And(N >= 0, Mm >= 0, allk(N, lambda i: B[i] == A[Mm + i])),
+                                       SUM(B, N) == SUM(A, Mm + N) - SUM(A, Mm)),
+        [("base", [hyp(z3.IntVal(0)), unfold(b, z3.IntVal(0))], concl(z3.IntVal(0))),
+         ("step", [k >= 0, z3.Implies(hyp(k), concl(k)), hyp(k + 1), unfold(b, k), unfold(a, m + k)], concl(k + 1)),
+         ("hyp-monotone", [k >= 0, hyp(k + 1)], hyp(k))])
+    # sum_reverse: b[i] == a[n-1-i] for i < n   =>   SUM(b, n) == SUM(a, n)
+    # generalised for the induction: for k <= n:  SUM(b, k) == SUM(a, n) - SUM(a, n-k)
+    hyp_r = lambda t: z3.And(t <= n, allk(t, lambda i: b[i] == a[n - 1 - i]))
+    concl_r = lambda t: SUM(b, t) == SUM(a, n) - SUM(a, n - t)
+    L["sum_reverse"] = (
+        lambda A, B, N: z3.Implies(z3.And(N >= 0, allk(N, lambda i: B[i] == A[N - 1 - i])), SUM(B, N) == SUM(A, N)),
+        [("base", [hyp_r(z3.IntVal(0)), unfold(b, z3.IntVal(0))], concl_r(z3.IntVal(0))),
+         ("step", [k >= 0, z3.Implies(hyp_r(k), concl_r(k)), hyp_r(k + 1), unfold(b, k), unfold(a, n - k - 1)], concl_r(k + 1)),
+         ("hyp-monotone", [k >= 0, hyp_r(k + 1)], hyp_r(k)),
+         ("conclude", [n >= 0, concl_r(n), unfold(a, z3.IntVal(0))], SUM(b, n) == SUM(a, n))])
+    return L
+
+
+LEMMAS.update(_mk_shift_reverse())
